@@ -323,20 +323,22 @@ def lemma_globs(params):
 def partitions(tier, seed):
     P = []
     q = tier == "quick"
-    nsh = 8 if q else 16
-    toks = TOK_Q if q else TOK_T
+    nsh = 16
     for sh in range(nsh):
         P.append(dict(name="globs/single/%d" % sh, kind="py", func="lemma_globs",
-                      params=dict(mode="single", tokens=toks, maxtok=3 if q else 3, shard=sh, nshards=nsh, seed=seed),
-                      budget=300 if q else 3000, bounds="every single glob of <= 3 tokens over %d token kinds; all file names" % len(toks)))
+                      params=dict(mode="single", tokens=TOK_T, maxtok=4 if q else 5, shard=sh, nshards=nsh, seed=seed),
+                      budget=300 if q else 3000, bounds="every single glob of <= %d tokens over %d token kinds; all file names" % (4 if q else 5, len(TOK_T))))
         P.append(dict(name="globs/pairs/%d" % sh, kind="py", func="lemma_globs",
-                      params=dict(mode="pairs", tokens=TOK_Q if q else TOK_T[:12], pairtok=1 if q else 2, maxtok=2, shard=sh, nshards=nsh, seed=seed),
-                      budget=300 if q else 3000, bounds="every ordered pair of globs of <= %d tokens; all file names" % (1 if q else 2)))
+                      params=dict(mode="pairs", tokens=TOK_T[:12] if q else TOK_T, pairtok=2, maxtok=2, shard=sh, nshards=nsh, seed=seed),
+                      budget=300 if q else 3000, bounds="every ordered pair of globs of <= 2 tokens over %d token kinds; all file names" % (12 if q else len(TOK_T))))
+        P.append(dict(name="globs/pairs1/%d" % sh, kind="py", func="lemma_globs",
+                      params=dict(mode="pairs", tokens=TOK_T, pairtok=1, maxtok=1, shard=sh, nshards=nsh, seed=seed),
+                      budget=300, bounds="every ordered pair of one-token globs over %d token kinds" % len(TOK_T)))
         P.append(dict(name="globs/random/%d" % sh, kind="py", func="lemma_globs",
-                      params=dict(mode="random", tokens=toks, maxtok=3 if q else 4, count=120 if q else 1500, shard=0, nshards=1, seed=seed * 100 + sh),
-                      budget=300 if q else 3000, bounds="seeded lists of 2-3 globs of <= %d tokens; all file names" % (3 if q else 4)))
+                      params=dict(mode="random", tokens=TOK_T, maxtok=4 if q else 5, count=1000 if q else 20000, shard=0, nshards=1, seed=seed * 100 + sh),
+                      budget=300 if q else 3000, bounds="seeded lists of 2-3 globs of <= %d tokens; all file names" % (4 if q else 5)))
     P.append(dict(name="globs/illegal", kind="py", func="lemma_globs",
-                  params=dict(mode="illegal", tokens=toks, maxtok=1, shard=0, nshards=1, seed=seed), budget=60,
+                  params=dict(mode="illegal", tokens=TOK_T, maxtok=1, shard=0, nshards=1, seed=seed), budget=60,
                   bounds="glob lists with an illegal escape must raise"))
     for case in (range(0, len(CATALOGUE), 2) if q else range(len(CATALOGUE))):
         for ln in ((0, 1, 2) if q else (0, 1, 2, 3, 4)):
